@@ -7,10 +7,10 @@ Obs == JsonDeserialize(IOEnv.OBS_FILE)
 mvars == <<vars, tid, l>>
 MonInit == /\ tid \in 1..Len(Obs) /\ l = 1
            /\ value = Obs[tid][1].state.value /\ bound = Obs[tid][1].state.bound
-           /\ pend = Obs[tid][1].state.pend /\ clr = Obs[tid][1].state.clr
+           /\ pend = Obs[tid][1].state.pend /\ clr = Obs[tid][1].state.clr /\ rel = Obs[tid][1].state.rel
            /\ act = Obs[tid][1].act
 MonNext == /\ l < Len(Obs[tid]) /\ l' = l + 1 /\ tid' = tid
            /\ value' = Obs[tid][l + 1].state.value /\ bound' = Obs[tid][l + 1].state.bound
-           /\ pend' = Obs[tid][l + 1].state.pend /\ clr' = Obs[tid][l + 1].state.clr
+           /\ pend' = Obs[tid][l + 1].state.pend /\ clr' = Obs[tid][l + 1].state.clr /\ rel' = Obs[tid][l + 1].state.rel
            /\ act' = Obs[tid][l + 1].act
 =============================================================================
